@@ -27,12 +27,13 @@ typedef __int128 s128;
 #define VERIF_BMAX 200
 #endif
 #ifndef VERIF_NDMAX
-#define VERIF_NDMAX 64
+#define VERIF_NDMAX 96 /* > 64: CBMC keeps the log as one array symbol (no per-element field sensitivity) */
 #endif
 
 /* ---- scheduler state (rt_gen.c) ---------------------------------------------------------- */
 extern int verif_cur;           /* current thread slot (VERIF_NT = init/final/main slot)       */
 extern unsigned verif_budget;   /* visible operations left in this context                      */
+extern int verif_mode;          /* 0 run, 1 seeking the resume point, 2 yielded (falling through to the end) */
 extern int verif_changed;       /* something observable changed in the current round            */
 extern int verif_last[VERIF_NSLOT]; /* how the slot's last context ended: 0 pre-empted 1 blocked 2 spin 3 timed spin */
 extern u32* verif_blocked_on[VERIF_NSLOT];
@@ -206,4 +207,5 @@ double verif_fabs(double);
 double verif_round(double);
 double verif_floor(double);
 double verif_ceil(double);
+static int verif_exc_matches(u8* thrown, u8* catcher);
 #endif
